@@ -48,6 +48,79 @@ theorem runs_store {prog : Program} {t : Ty} {addr e : Expr} {env : Env} {st : S
     RunsTo prog (.store t addr e) env st P :=
   ⟨1, .normal, _, _, exec_store_ok' prog (f' := 0) rfl t addr e env st p v b off n lv _ hn ha hv hr rfl, h⟩
 
+
+theorem runs_brk {prog : Program} {env : Env} {st : St} {P : Sig → Env → St → Prop} (h : P .brk env st) : RunsTo prog .brk env st P :=
+  ⟨1, .brk, env, st, by rw [exec], h⟩
+
+theorem runs_ret_none {prog : Program} {env : Env} {st : St} {P : Sig → Env → St → Prop} (h : P (.ret none) env st) :
+    RunsTo prog (.ret none) env st P :=
+  ⟨1, .ret none, env, st, by rw [exec], h⟩
+
+theorem runs_seq_abort {prog : Program} {a b : Stmt} {env : Env} {st : St} {P : Sig → Env → St → Prop}
+    (ha : RunsTo prog a env st (fun sig e s => sig ≠ .normal ∧ P sig e s)) : RunsTo prog (.seq a b) env st P := by
+  obtain ⟨n, sig, e, s, h, hs, hp⟩ := ha
+  refine ⟨n + 1, sig, e, s, ?_, hp⟩
+  rw [exec, h]
+  cases sig with
+  | normal => exact absurd rfl hs
+  | brk => rfl
+  | ret v => rfl
+
+theorem runs_ite_true {prog : Program} {c : Expr} {a b : Stmt} {env : Env} {st : St} {P : Sig → Env → St → Prop} (v : Nat)
+    (hc : evalE env c = .ok (v, .pub)) (hv : v ≠ 0) (h : RunsTo prog a env { st with leak := .br true :: st.leak } P) :
+    RunsTo prog (.ite c a b) env st P := by
+  obtain ⟨n, sig, e, s, hx, hp⟩ := h
+  refine ⟨n + 1, sig, e, s, ?_, hp⟩
+  have : (v != 0) = true := by simpa using hv
+  rw [exec, hc]
+  simp only [ne_eq, not_true_eq_false, if_false, this, if_true]
+  exact hx
+
+theorem runs_ite_false {prog : Program} {c : Expr} {a b : Stmt} {env : Env} {st : St} {P : Sig → Env → St → Prop}
+    (hc : evalE env c = .ok (0, .pub)) (h : RunsTo prog b env { st with leak := .br false :: st.leak } P) :
+    RunsTo prog (.ite c a b) env st P := by
+  obtain ⟨n, sig, e, s, hx, hp⟩ := h
+  refine ⟨n + 1, sig, e, s, ?_, hp⟩
+  rw [exec, hc]
+  simp only [ne_eq, not_true_eq_false, if_false, show ((0 : Nat) != 0) = false from rfl, Bool.false_eq_true]
+  exact hx
+
+theorem runs_loop_continue {prog : Program} {body : Stmt} {env : Env} {st : St} {Q : Env → St → Prop} {P : Sig → Env → St → Prop}
+    (hb : RunsTo prog body env st (fun sig e s => sig = .normal ∧ Q e s))
+    (hk : ∀ e s, Q e s → RunsTo prog (.loop body) e s P) : RunsTo prog (.loop body) env st P := by
+  obtain ⟨n1, sig1, e1, s1, h1, hs, hq⟩ := hb
+  subst hs
+  obtain ⟨n2, sig2, e2, s2, h2, hp⟩ := hk e1 s1 hq
+  refine ⟨max n1 n2 + 1, sig2, e2, s2, ?_, hp⟩
+  rw [exec]
+  rw [exec_mono prog n1 body env st _ _ _ h1 (max n1 n2) (Nat.le_max_left _ _)]
+  exact exec_mono prog n2 (.loop body) e1 s1 _ _ _ h2 (max n1 n2) (Nat.le_max_right _ _)
+
+theorem runs_loop_break {prog : Program} {body : Stmt} {env : Env} {st : St} {P : Sig → Env → St → Prop}
+    (hb : RunsTo prog body env st (fun sig e s => sig = .brk ∧ P .normal e s)) : RunsTo prog (.loop body) env st P := by
+  obtain ⟨n, sig, e, s, h, hs, hp⟩ := hb
+  subst hs
+  exact ⟨n + 1, .normal, e, s, by rw [exec, h], hp⟩
+
+theorem runs_memcpy_zero {prog : Program} {d s n : Expr} {env : Env} {st : St} {P : Sig → Env → St → Prop} (pd ps : Nat)
+    (hd : evalE env d = .ok (pd, .pub)) (hs : evalE env s = .ok (ps, .pub)) (hn : evalE env n = .ok (0, .pub))
+    (h : P .normal env { st with leak := .cp pd ps 0 :: st.leak }) : RunsTo prog (.memcpy d s n) env st P := by
+  refine ⟨1, .normal, env, _, ?_, h⟩
+  rw [exec, hd, hs, hn]
+  simp
+
+theorem runs_memcpy {prog : Program} {d s n : Expr} {env : Env} {st : St} {P : Sig → Env → St → Prop} (pd ps vn bsrc offs bd offd : Nat)
+    (hd : evalE env d = .ok (pd, .pub)) (hs : evalE env s = .ok (ps, .pub)) (hn : evalE env n = .ok (vn, .pub)) (hvn : vn ≠ 0)
+    (hrs : resolve st.mem ps 1 = .ok (bsrc, offs)) (hbs : offs + vn ≤ (blockBytes st.mem bsrc).size)
+    (hrd : resolve st.mem pd 1 = .ok (bd, offd)) (hbd : offd + vn ≤ (blockBytes st.mem bd).size)
+    (h : P .normal env { st with leak := .cp pd ps vn :: st.leak, mem := (setBlock st.mem bd (writeBytes (blockBytes st.mem bd) offd (sliceBytes (blockBytes st.mem bsrc) offs vn))) }) :
+    RunsTo prog (.memcpy d s n) env st P := by
+  refine ⟨1, .normal, env, _, ?_, h⟩
+  rw [exec, hd, hs, hn]
+  simp only [ne_eq, not_true_eq_false, decide_false, Bool.or_self, Bool.false_eq_true, if_false, hvn, hrs, hrd]
+  rw [if_neg (by omega), if_neg (by omega)]
+
+
 /-! ### word-sized accesses to a block described by its bytes and base -/
 
 theorem blockBytes_of {mem : Array Block} {b : Nat} {X : Array LByte} {base : Nat} (h : mem[b]? = some ⟨X, base⟩) : blockBytes mem b = X := by
@@ -87,34 +160,73 @@ theorem readLE_writeLE_ne (bytes : Array LByte) (off off' v n n' : Nat) (l : Lab
 
 /-! ### a block seen as an array of 32-bit words -/
 
-/-- `X` is `X0` with some of its first `n` words overwritten; `w[i] = some v` records that word `i` currently holds `v` (secret) -/
+
+/-- byte `j` of a little-endian word -/
+def byteOf (v j : Nat) : UInt8 := (v / 256 ^ j % 256).toUInt8
+
+theorem byteOf_toNat (v j : Nat) : (byteOf v j).toNat = v / 256 ^ j % 256 := by
+  simp [byteOf, Nat.toUInt8, UInt8.toNat_ofNat']
+
+theorem getElem?_writeLE_in (l : Lab) : ∀ (n : Nat) (bs : Array LByte) (off v j : Nat), j < n → off + n ≤ bs.size →
+    (writeLE bs off v l n)[off + j]? = some (byteOf v j, l)
+  | 0, _, _, _, _, h, _ => by omega
+  | n + 1, bs, off, v, j, hj, hs => by
+    rw [writeLE]
+    cases j with
+    | zero =>
+      rw [getElem?_writeLE_out l n _ _ _ (off + 0) (by omega), Array.getElem?_setIfInBounds]
+      simp only [Nat.add_zero, if_true, show off < bs.size from by omega, byteOf, Nat.pow_zero, Nat.div_one]
+    | succ j =>
+      have := getElem?_writeLE_in l n (bs.setIfInBounds off ((v % 256).toUInt8, l)) (off + 1) (v / 256) j (by omega)
+        (by simp only [Array.size_setIfInBounds]; omega)
+      rw [show off + (j + 1) = off + 1 + j from by omega, this]
+      simp only [byteOf, Nat.pow_succ, Nat.div_div_eq_div_mul, Nat.mul_comm]
+
+/-- four bytes read as a word -/
+theorem readLE_of_bytes (X : Array LByte) (off : Nat) (v : Nat) (hv : v < 4294967296)
+    (h : ∀ j, j < 4 → X[off + j]? = some (byteOf v j, Lab.sec)) : readLE X off 4 = some (v, .sec) := by
+  have h0 := h 0 (by decide); have h1 := h 1 (by decide); have h2 := h 2 (by decide); have h3 := h 3 (by decide)
+  simp only [Nat.add_zero] at h0
+  simp only [readLE, h0, h1, h2, h3, show off + 1 + 1 = off + 2 from rfl, show off + 2 + 1 = off + 3 from rfl, reduceCtorEq, if_false,
+    byteOf_toNat, Lab.join]
+  congr 2
+  simp only [Nat.pow_zero, Nat.div_one, Nat.pow_one, show (256 : Nat) ^ 2 = 65536 from rfl, show (256 : Nat) ^ 3 = 16777216 from rfl]
+  omega
+
+
+/-- `X` is `X0` with some of its first `n` words overwritten; `w[i] = some v` records that word `i` currently holds `v`
+    (four secret bytes, little-endian) -/
 structure Wd (X X0 : Array LByte) (n : Nat) (w : List (Option UInt32)) : Prop where
   size : X.size = X0.size
   big : 4 * n ≤ X0.size
-  rd : ∀ i v, i < n → w[i]? = some (some v) → readLE X (4 * i) 4 = some (v.toNat, .sec)
+  rdb : ∀ i v, i < n → w[i]? = some (some v) → ∀ j, j < 4 → X[4 * i + j]? = some (byteOf v.toNat j, Lab.sec)
   tail : ∀ j, 4 * n ≤ j → X[j]? = X0[j]?
+
+theorem Wd.rd {X X0 : Array LByte} {n : Nat} {w : List (Option UInt32)} (h : Wd X X0 n w) (i : Nat) (v : UInt32) (hi : i < n)
+    (hv : w[i]? = some (some v)) : readLE X (4 * i) 4 = some (v.toNat, .sec) :=
+  readLE_of_bytes X (4 * i) v.toNat (UInt32.toNat_lt v) (h.rdb i v hi hv)
 
 theorem Wd.set {X X0 : Array LByte} {n : Nat} {w : List (Option UInt32)} (h : Wd X X0 n w) (i : Nat) (hi : i < n) (v : UInt32) :
     Wd (writeLE X (4 * i) v.toNat .sec 4) X0 n (w.set i (some v)) := by
   have hb := h.big
   have hs := h.size
-  refine ⟨by rw [size_writeLE]; exact h.size, h.big, fun j u hj hu => ?_, fun j hj => ?_⟩
+  refine ⟨by rw [size_writeLE]; exact h.size, h.big, fun j u hj hu k hk => ?_, fun j hj => ?_⟩
   · by_cases hji : j = i
     · subst hji
       by_cases hlen : j < w.length
       · rw [List.getElem?_set_self hlen] at hu
         have huv : v = u := by injection hu with h1; injection h1
         rw [← huv]
-        exact readLE_writeLE_u32 X (4 * j) v (by omega)
+        exact getElem?_writeLE_in .sec 4 X (4 * j) v.toNat k hk (by omega)
       · rw [List.getElem?_eq_none (by rw [List.length_set]; omega)] at hu; cases hu
     · rw [List.getElem?_set_ne (fun e => hji e.symm)] at hu
-      rw [readLE_writeLE_ne X (4 * i) (4 * j) _ 4 4 _ (by omega)]
-      exact h.rd j u hj hu
+      rw [getElem?_writeLE_out _ _ _ _ _ _ (by omega)]
+      exact h.rdb j u hj hu k hk
   · rw [getElem?_writeLE_out _ _ _ _ _ j (by omega)]
     exact h.tail j hj
 
 theorem Wd.refl (X0 : Array LByte) (n : Nat) (hb : 4 * n ≤ X0.size) (w : List (Option UInt32))
-    (h : ∀ i v, i < n → w[i]? = some (some v) → readLE X0 (4 * i) 4 = some (v.toNat, .sec)) : Wd X0 X0 n w :=
+    (h : ∀ i v, i < n → w[i]? = some (some v) → ∀ j, j < 4 → X0[4 * i + j]? = some (byteOf v.toNat j, Lab.sec)) : Wd X0 X0 n w :=
   ⟨rfl, hb, h, fun _ _ => rfl⟩
 
 /-- `p = &dst; x = *src; *p = val(x)` -/
